@@ -60,6 +60,19 @@ func buildCorners(seed int64) (*Scenario, error) {
 	rateOPR(114)
 	b.TxE(114, 115, "carol's later, funded conversion", carol, Conv(C, USD, 20*fct, JPY))
 	rateOPR(115)
+	// all-or-nothing: every transaction of the batch is covered by the balance on its own, the batch as a
+	// whole is not -- rejected (-1) with no effect, on the arrival path and on the holding path
+	dave := Key("dave", 0)
+	D := dave.FAAddress()
+	b.TxE(116, 116, "dave is funded with 100 pUSD", alice, Xfer(A, USD, 100*fct, D))
+	b.TxE(117, -1, "two transfers of 60: each covered, together not", dave, Xfer(D, USD, 60*fct, Bo), Xfer(D, USD, 60*fct, C))
+	b.TxE(118, -1, "two conversions of 60: each covered, together not", dave, Conv(D, USD, 60*fct, EUR), Conv(D, USD, 60*fct, JPY))
+	rateOPR(119)
+	b.TxE(119, 120, "60 + 40: exactly the balance", dave, Conv(D, USD, 60*fct, EUR), Conv(D, USD, 40*fct, JPY))
+	rateOPR(120)
+	// outputs that name the sender itself, and the same recipient twice: every output is recorded
+	b.TxE(121, 121, "change output and a repeated recipient", alice,
+		XferN(A, USD, Out(Bo, 70*fct), Out(A, 30*fct)), XferN(A, USD, Out(C, 10*fct), Out(C, 5*fct+uint64(rng.Intn(1000)))))
 	// first snapshot height without rates (before 2.0.2)
 	for h := uint32(140); h <= 143; h++ {
 		rateOPR(h)
@@ -78,6 +91,6 @@ func buildCorners(seed int64) (*Scenario, error) {
 	b.OPR(289, 25, Prices(11, 10, nil), nil) // 10 % dearer than before: the rates of 289 are not those of 287
 	b.SPR(289, Prices(11, 10, nil), stakers)
 	rateOPR(290)
-	b.Dump(107, 108, 109, 110, 111, 112, 113, 143, 144, 145, 287, 288, 289)
+	b.Dump(107, 108, 109, 110, 111, 112, 113, 116, 117, 119, 120, 121, 143, 144, 145, 287, 288, 289)
 	return b.Finish()
 }
